@@ -67,7 +67,7 @@ def register(reg, repo):
                  ("n_end", "int"), ("n_term", "int"), ("n_herr", "int"), ("herr_type", "val"),
                  ("herr_msg", "val"), ("herr_state", "val"), ("n_collect", "int"), ("n_check_pending", "int"),
                  ("n_rmcanceller", "int"), ("n_setcanceller", "int"),
-                 ("acked", "bool"), ("held", "bool"), ("cont", "bool"), ("cur_id", "val")):
+                 ("acked", "bool"), ("held", "bool"), ("cont", "bool"), ("cur_id", "val"), ("released", "bool")):
         reg.ghost(g, s)
 
     # ---- dropped effects: arguments are still evaluated (DESIGN 2.2)
@@ -97,7 +97,9 @@ def register(reg, repo):
                         "bcast_heap": "__heap__"},
                  assumes=["EventDispatcher.broadcast does not raise (A2) -- load-bearing, see DESIGN C11"])
     reg.external("self.event_dispatcher.set_timeout", ["callback", "delay"], modifies=None, result_type="fn",
-                 ghost={"n_timer": "n_timer + 1", "timer_cb": "callback", "timer_ms": "delay"})
+                 ghost={"n_timer": "n_timer + 1", "timer_cb": "callback", "timer_ms": "delay", "cont": "True"},
+                 assumes=["a timer set with set_timeout fires once unless cleared (A3); its callback is the continuation "
+                          "that owns the event id (each such callback is itself under the handler contract)"])
 
     # ---- stores (dict protocol + ttl): modelled as dicts, A2 for Redis
     reg.external("self.executions.set_ttl", ["key", "ttl"], modifies=None, result_type="none")
@@ -188,17 +190,22 @@ NOTIFY_ENV_PRE = WF_EVENT + WF_SELF + SEP_SELF_EVENT + [
     # field types of a validator-accepted state (C18 supplies these)
     "implies(haskey(state, 'End'), isbool(state['End']))",
     "implies(haskey(state, 'Next'), isstr(state['Next']))",
+    # type invariant of stored state machine records (the API validates loggingConfiguration, C10)
+    "implies(haskey(state_machine, 'loggingConfiguration'), isdict(state_machine['loggingConfiguration']))",
 ]
 
 
 def register_paths_abstract(reg):
     """Callers' view of the path functions: deterministic functions named AP / EPT / RP (C01, C07)."""
     reg.contract(SP + "apply_path", pure=True, ensures=[("is-AP", "same(result, AP(input, context, path))")],
-                 raises={"PathMatchFailure": None, "ParameterPathFailure": None, "Exception*": None},
+                 raises={"PathMatchFailure": None, "ParameterPathFailure": "isstr(path) and not path.startswith('$')"},
                  modifies=None,
-                 assumes=["apply_path is a deterministic function of its arguments (named AP); its laws are C12"])
+                 assumes=["apply_path is a deterministic function of its arguments (named AP); its laws are C12",
+                          "jsonpath.jsonpath raises no exception (it swallows evaluation errors and returns False), "
+                          "and $$.Task.Token in the context is a string: apply_path raises only PathMatchFailure / "
+                          "ParameterPathFailure (checked on the real body under C12)"])
     reg.contract(SP + "apply_jsonpath", pure=True, ensures=[("is-AP", "same(result, AP(input, None, path))")],
-                 raises={"PathMatchFailure": None, "Exception*": None}, modifies=None)
+                 raises={"PathMatchFailure": None}, modifies=None)
     reg.contract(SP + "evaluate_payload_template", pure=True,
                  ensures=[("is-EPT", "same(result, EPT(input, context, template))")],
                  raises={"IntrinsicFailure": None, "PathMatchFailure": None, "ParameterPathFailure": None,
@@ -214,6 +221,15 @@ def register_paths_abstract(reg):
                           "structures do not share objects (A8)"])
 
 
+# what the recursive closures (handle_error / handle_terminal_state / collect_results) can do to the effect ghosts:
+# publish, acknowledge, broadcast, child-execution replies, cancellations.  They never start a task, arm a timer
+# or register a canceller for the CURRENT event, so cont / n_exec_task / n_timer / canc_* are outside their frame
+# (checked as `frame/ghost-*` obligations when those closures are verified themselves).
+RECURSIVE_EFFECTS = ["n_pub", "pub_event", "pub_heap", "pub_shared", "issued", "n_ack", "ack_id", "acked", "held",
+                     "n_bcast", "bcast_subject", "bcast_msg", "bcast_heap", "n_sfn", "n_cancel", "n_rmcanceller",
+                     "released"]
+
+
 def register_notify_callees(reg):
     """Callee contracts for the mutually recursive closures of notify (DESIGN 2.6, A.4, A.5)."""
     for g, s in (("acked", "bool"), ("held", "bool"), ("cont", "bool"), ("cur_id", "val"),
@@ -225,7 +241,9 @@ def register_notify_callees(reg):
         ghost={"n_herr": "n_herr + 1", "herr_type": "error_type", "herr_msg": "error_message",
                "herr_state": "state", "herr_heap": "__heap__"},
         ensures=[("issued", "issued"), ("ack-monotone", "implies(old(acked), acked)"),
-                 ("held-monotone", "implies(old(held), held)"), ("cont-monotone", "implies(old(cont), cont)")],
+                 ("held-monotone", "implies(old(held), held)"),
+                 ("released-monotone", "implies(old(released), released)")],
+        ghost_modifies=RECURSIVE_EFFECTS,
         modifies="ALL", raises={},
         assumes=["externals called by handle_error do not raise (A2)"])
     reg.contract(
@@ -235,7 +253,9 @@ def register_notify_callees(reg):
         ensures=[("issued", "issued"),
                  ("handed-over", "isnone(id) or acked or held"),
                  ("ack-monotone", "implies(old(acked), acked)"),
-                 ("held-monotone", "implies(old(held), held)"), ("cont-monotone", "implies(old(cont), cont)")],
+                 ("held-monotone", "implies(old(held), held)"),
+                 ("released-monotone", "implies(old(released), released)")],
+        ghost_modifies=RECURSIVE_EFFECTS,
         modifies="ALL", raises={})
 
 
@@ -244,4 +264,5 @@ HANDLER_TYPESTATE = [
     # continuation that owns it has been registered
     ("handed-over", "acked or held or cont"),
 ]
-HANDLER_GHOST_INIT = {"cur_id": "id", "acked": "False", "held": "False", "cont": "False", "issued": "False"}
+HANDLER_GHOST_INIT = {"cur_id": "id", "acked": "False", "held": "False", "cont": "False", "issued": "False",
+                      "released": "False"}
